@@ -53,6 +53,9 @@ package groupsig
 //@   modifies nothing
 
 // Threshold recovery (Lagrange interpolation in the exponent): C13 territory, trusted here.
+// ghost recattempts counts the recovery attempts (used to state that reaching the threshold triggers one).
+//@ ghost recattempts Int
 //@ func RecoverGroupSignature
 //@   option trusted
-//@   modifies nothing
+//@   ensures ghost(recattempts) == old(ghost(recattempts)) + 1
+//@   modifies ghost(recattempts)
